@@ -5,10 +5,10 @@ from rules import anchors, common
 
 CLAIMED = True
 TECHNIQUE = "static analysis over type-checked MIR: constructor/visibility/mutator inventory of Config, edge-conditioned retention and error pushes in build_lossy, strict/lossy result table, rejection-edge table of check_logger_name with separator constants, panic-site inventory of the install/routing cone (+ compile-fail privacy witnesses in the thorough tier)"
-LEVEL_TEXT = """Static, all-paths decision of: (V1) the only Config aggregate is in ConfigBuilder::build_lossy, Config/Root/Logger/Appender fields are private and no public function hands out a mutable path to the name lists (root_mut -> &mut Root, whose only public mutator writes the level); (V2) retention filters: an appender is kept only on the true edge of names.insert(name), a root/logger reference only on the true edge of names.contains(ref) against that same set, a logger only if its name was newly inserted AND check_logger_name returned Ok, kept lists are built by push in iteration order; (V3) build returns Ok(config) iff the error list is empty, every filter's failing edge pushes an error carrying the offending item's own name and no error is pushed on a passing edge; (V4) no un-discharged panic site in the install/routing cone (Logger::new*, SharedLogger::new*, init_config*, routing and delivery; cut at dyn Append/Filter) — the appender_map[..] lookups are justified by V1+V2; (V5) the separator constants of check_logger_name agree with the routing layer's; (V6) check_logger_name rejects exactly on: empty name, a colon streak above len(SEP), a non-colon after a streak that is >0 and != len(SEP), end of input inside a streak. The exact language of names and completeness of error reporting for every input are not decided."""
+LEVEL_TEXT = """Static, all-paths decision of: (V7) every getter of the configuration value types returns the field of its name unchanged, every builder setter stores its argument in the field of its name and touches no other, every build() fills each field from the same-named builder field or parameter, unpack() returns the fields in order (30 functions, floor); (V1) the only Config aggregate is in ConfigBuilder::build_lossy, Config/Root/Logger/Appender fields are private and no public function hands out a mutable path to the name lists (root_mut -> &mut Root, whose only public mutator writes the level); (V2) retention filters: an appender is kept only on the true edge of names.insert(name), a root/logger reference only on the true edge of names.contains(ref) against that same set, a logger only if its name was newly inserted AND check_logger_name returned Ok, kept lists are built by push in iteration order; (V3) build returns Ok(config) iff the error list is empty, every filter's failing edge pushes an error carrying the offending item's own name and no error is pushed on a passing edge; (V4) no un-discharged panic site in the install/routing cone (Logger::new*, SharedLogger::new*, init_config*, routing and delivery; cut at dyn Append/Filter) — the appender_map[..] lookups are justified by V1+V2; (V5) the separator constants of check_logger_name agree with the routing layer's; (V6) check_logger_name rejects exactly on: empty name, a colon streak above len(SEP), a non-colon after a streak that is >0 and != len(SEP), end of input inside a streak. The exact language of names and completeness of error reporting for every input are not decided."""
 LEVEL_NOTE = "Trusted: rustc MIR/callee resolution; HashSet/Vec semantics; Rust privacy (witnessed by compile-fail doctests in the thorough tier)."
 EXPLANATION = """Decided: V1 sole constructor/private fields/no mutable path, V2 retention filters, V3 strictness and error payloads, V4 install cannot panic, V5 separator agreement, V6 rejection edges of check_logger_name. Undecided: the exact accepted name language for every string; that every offending item is reported (a logger rejected for its name does not get its dangling references reported)."""
-DECIDED = ["V1", "V2", "V3", "V4", "V5", "V6"]
+DECIDED = ["V1", "V2", "V3", "V4", "V5", "V6", "V7 accessors/setters/build of Config, Root, Logger, Appender and their builders are faithful"]
 UNDECIDED = ["exact language accepted by check_logger_name", "completeness of error reporting"]
 TRUSTED = ["rustc nightly MIR + Instance::try_resolve", "std HashSet/Vec", "Rust privacy rules"]
 
@@ -45,6 +45,8 @@ def name_checker(p):
 
 
 def run_cfg(ctx, p, cfg):
+    from rules import accessors
+    accessors.rule_fidelity(ctx, p, cfg, "V7")
     with ctx.rule("V1", "sole constructor", cfg) as r:
         aggs = sorted({a[0].path for a in p.aggregates(CONFIG) if "Derive" not in (a[0].d.get("exp") or "")})
         r.require(aggs == [BUILD_LOSSY], "config-built-only-by-build_lossy", detail="Config aggregates in: %s" % aggs)
